@@ -480,7 +480,7 @@ def run_case(p):
     if p.get('kind') == 'lazy':
         return run_lazy_case(p)
     for k, f in (('forall', 'run_forall_case'), ('concat', 'run_concat_case'), ('rewrite', 'run_rewrite_case'),
-                 ('registry', 'run_registry_case'), ('infer', 'run_infer_case'), ('rdr', 'run_rdr_case')):
+                 ('registry', 'run_registry_case'), ('infer', 'run_infer_case'), ('rdr', 'run_rdr_case'), ('rdrtree', 'run_rdrtree_case')):
         if p.get('kind') == k:
             return globals()[f](p)
     if p.get('kind') == 'reuse':
@@ -853,6 +853,83 @@ def run_infer_case(p):
         return {'condition': repr(cond), 'built': len(got), 'want': len(want), 'signature_kind': 'instances'}
     if len(set(map(id, got))) != len(got):
         return {'what': 'the same instance returned twice', 'signature_kind': 'identity'}
+    return None
+
+
+def gen_rule_tree(rng, budget, depth):
+    """random rule: {'cond', 'tag', 'body': [(kind, rule)...]} - the body lists, in order, the `with refinement(..)` /
+    `with alternative(..)` blocks opened inside the rule's own block"""
+    counter = [0]
+
+    def mk(d):
+        counter[0] += 1
+        r = {'cond': O.gen_cond(rng, 1, 1, vocab=('cmp', 'name'), neg=False), 'tag': 'T%d' % counter[0], 'body': []}
+        if d > 0:
+            for _ in range(rng.choice([0, 1, 1, 2, 3])):
+                if counter[0] >= budget:
+                    break
+                r['body'].append((rng.choice(['ref', 'alt']), mk(d - 1)))
+        return r
+    return mk(depth)
+
+
+def rule_shape(r):
+    return 'R(' + ','.join(k + ':' + rule_shape(s)[2:-1] for k, s in r['body']) + ')'
+
+
+def rdr_reference(rule, e):
+    """ripple-down-rules reading of the tree: a rule that matches gives the conclusion of its first applicable
+    refinement (recursively) in place of its own; the alternatives opened in a rule's block are tried, in order, when the
+    rule does not match"""
+    def group(r):
+        if O.holds(r['cond'], e):
+            return concl(r)
+        for k, a in r['body']:
+            if k == 'alt':
+                t = group(a)
+                if t is not None:
+                    return t
+        return None
+
+    def concl(r):
+        for k, f in r['body']:
+            if k == 'ref':
+                t = group(f)
+                if t is not None:
+                    return t
+        return r['tag']
+    return group(rule)
+
+
+def run_rdrtree_case(p):
+    """C12, every tree shape: random rule trees (refinements / alternatives nested under the base, under refinements and
+    under alternatives, several per block) against the recursive reference reading"""
+    from entity_query_language import symbolic_mode, rule_mode, let, an, entity, Add, refinement, alternative
+    O.reset_registry()
+    rng = random.Random(p['seed'])
+    d0 = O.make_domain(rng, p.get('n', 5))
+    tree = gen_rule_tree(rng, p.get('rules', 5), p.get('depth', 2))
+    shape = rule_shape(tree)
+    try:
+        x = let(type_=O.Item, domain=d0)
+        with symbolic_mode():
+            q = an(entity(v := let(type_=O.Built), O.build(tree['cond'], [x])))
+
+        def emit(r):
+            Add(v, O.Built(a=x, tag=r['tag']))
+            for k, sub in r['body']:
+                with (refinement if k == 'ref' else alternative)(O.build(sub['cond'], [x])):
+                    emit(sub)
+        with rule_mode(q):
+            emit(tree)
+        got = sorted((d0.index(g.a), g.tag) for g in q.evaluate())
+        want = sorted((i, rdr_reference(tree, {0: o})) for i, o in enumerate(d0) if rdr_reference(tree, {0: o}) is not None)
+    except Exception as e:  # noqa
+        return {'shape': shape, 'exception': repr(e), 'trace': traceback.format_exc(limit=5), 'signature_kind': shape + ':exception'}
+    if got != want:
+        def show(r):
+            return {'cond': repr(r['cond']), 'tag': r['tag'], 'body': [(k, show(s_)) for k, s_ in r['body']]}
+        return {'shape': shape, 'tree': show(tree), 'got': got, 'want': want, 'signature_kind': shape}
     return None
 
 
